@@ -13,6 +13,10 @@ GEN_PROPS = ["Dashu.Props.C20Gen", "Dashu.Props.C20GenLoop"]
 GEN_AUDIT = ["Dashu.Audit.C20Gen", "Dashu.Audit.C20GenLoop"]
 GEN_PROPS += ["Dashu.Props.C20Link"]     # round 7: link to C07's mirrored word-level to_le_bytes / from_le_bytes (by import)
 GEN_AUDIT += ["Dashu.Audit.C20Link"]
+GEN_PROPS += ["Dashu.Props.C20LinkRepr"] # round 8: link of Repr::new (value-level fnew) to C19's mirror FRepr.new (by import)
+GEN_AUDIT += ["Dashu.Audit.C20LinkRepr"]
+GEN_PROPS += ["Dashu.Props.C20LinkConst"] # round 8: FBig::from_parts_const (const path) on C05's mirror fromPartsConst (by import of the model)
+GEN_AUDIT += ["Dashu.Audit.C20LinkConst"]
 
 REFINED = ["quote_bytes / from_le_bytes (heap path)", "le_bytes_to_u{16,32,64}_array + padding + LEN slicing (static path)",
            "u32 const path guard", "parse_integer_with_error token loop on the documented grammar",
@@ -51,7 +55,17 @@ REFINED = ["quote_bytes / from_le_bytes (heap path)", "le_bytes_to_u{16,32,64}_a
            "list whose last word is non-zero the mirrored from_static_words takes no assert arm, emits no event and shows exactly those "
            "words (from_static_words_accepts_normalised); on the slice &DATA[..LEN] the macro emits for n (each selector) it is accepted "
            "and the shown words denote n (static_constructor_on_macro_slice); staticSelect reads exactly these slices "
-           "(staticSelect_reads_macro_slice)"]
+           "(staticSelect_reads_macro_slice)",
+           "round 8, C20<->C19 link (Props/C20LinkRepr, by import of C19's FRepr.new = Repr::normalize, the strip loop on the signed "
+           "significand): the value-level Repr::new of the C20 model (fnew) IS that mirror followed by the isize test on the normalised "
+           "exponent, for every base >= 2, significand and exponent (repr_new_is_mirrored_normalize); on the significand / exponent of "
+           "every accepted fbig! / dbig! literal the mirrored Repr::new of the heap / static expansion returns the parsed representation "
+           "unchanged, exponent in isize, C19's digit count within the precision (float_expansion_repr_fixed_mirror)",
+           "round 8, C20<->C05 link (Props/C20LinkConst, on C05's statement-by-statement mirror fromPartsConst of FBig::from_parts_const): "
+           "whenever the generator takes the const path on a parsed (normalised or zero) magnitude the mirror builds exactly the "
+           "representation the model assigns to the expansion, for every word size, both bases, both signs; for a zero literal exactly "
+           "precision 0 whatever min_precision (the recorded finding is the mirror's `return Self::ZERO` arm), otherwise a precision >= "
+           "the one written (const_path_is_mirrored_constructor, from_parts_const_on_literal)"]
 FRONTIER = ["rustc tokenisation of the literal (generator-side lexer, validated by compiling the sample crate): kept — rustc's lexer is not "
             "part of /repo and has no executable model here; level (ii) compiles the sampled invocations with the real compiler",
             "the expansion is read by an interpreter in the harness (constructor paths + data); validated by level (ii): the real proc-macros "
@@ -62,7 +76,12 @@ FRONTIER = ["rustc tokenisation of the literal (generator-side lexer, validated 
             "the float / rational constructors called by the expansion (from_parts_const, Repr::new, FBig::from_repr / from_repr_const, "
             "RBig / Relaxed::from_parts_const) and IBig::from_parts / from_static_words(sign, ..) are modelled by their value (C19/C05 own "
             "them); Tie B runs the real ones. Round 7: UBig::to_le_bytes / UBig::from_le_bytes (C07's word-level mirrors) and "
-            "Repr::from_static_words (C17's mirror with both asserts) are no longer in this entry — linked by theorem, Props/C20Link"]
+            "Repr::from_static_words (C17's mirror with both asserts) are no longer in this entry — linked by theorem, Props/C20Link. "
+            "Round 8: Repr::new is no longer in this entry — linked to C19's mirror FRepr.new by theorem, Props/C20LinkRepr; open: "
+            "the PRECISION FBig::from_parts_const infers for a non-zero literal (representation and zero arm linked to C05's mirror "
+            "fromPartsConst, Props/C20LinkConst; precision proved >= the one written, equality needs constDigits / bit_len <= digits "
+            "written, not proved), from_repr(_const), the rational "
+            "from_parts_const (Model/Ratio/Basic.lean)"]
 RULE = ("source texts of macro arguments built from the grammar (sign x radix prefix / `base N` for N in 2..36 x underscores x "
         "identifier-shaped digit strings x exponent / hex-float / fraction / `~` forms) with magnitudes on both sides of the "
         "32-bit const path, the DoubleWord boundary and multi-word values of every byte-length residue mod 8, each expanded as "
